@@ -11,6 +11,7 @@ what each says); they were moved there so that C15's `Lemmas/PermInvBMS.lean` (`
 import Reamber.Lemmas.BMSWrite
 import Reamber.Lemmas.PermInvBMS
 import Reamber.Lemmas.SnapMono
+import Reamber.Lemmas.BMSHeader
 
 namespace Reamber.BMS
 
@@ -964,5 +965,180 @@ theorem written_tempo_denotes (cs : List BcSnap) (hwf : wfChanges cs = true) (hs
     rw [sortBcSnap_eq_of_perm ht8 hstrict, sortBcSnap_eq_self hsorted]
   unfold denoteTempo
   simp only [h3, h8, ho3, List.map_nil, allSome, allSome_congr _ g' o8 hf, List.nil_append, strictAscBc, hsort, hs, if_true]
+
+/-! ### the assembled statement -/
+
+theorem bpms_pos (cs : List BcSnap) (hwf : wfChanges cs = true) (rows : List BcOff) (hp : rows.Perm (tmOf 0 cs)) :
+    ∀ b ∈ rows, 0 < b.bpm := by
+  intro b hb
+  have hb' := hp.mem_iff.mp hb
+  have hz2 : (cs.zip (tmOf 0 cs)).map (·.2) = tmOf 0 cs := List.map_snd_zip (by rw [tmOf_length])
+  rw [← hz2] at hb'
+  obtain ⟨q, hq, rfl⟩ := List.mem_map.mp hb'
+  rw [(zip_tmOf_fields 0 cs q hq).1]
+  exact (wfChanges_mem hwf (List.of_mem_zip hq).1).bpm_pos
+
+/-- **`bms_write_read`: the written file denotes the in-memory chart.**
+
+`cs` — a tempo list in C05's domain: well-formed 4/4 tempo points, pairwise different positions in ascending order,
+the first at measure 0 beat 0, grid-compatible on the shipped grid of 96 (tempo points on measure lines always are);
+`c` — a chart whose tempo rows are, in ANY order, what is stored for `cs` (`hp`), with columns of the layout and times
+at or after the first tempo point (`hok`); `lay` a well-formed layout (`LayoutOK`; the time-signature channel is
+none of its lanes and not the tempo channel: `hts`).  Under the named hypotheses
+* `hdec` — every tempo is a three-decimal number (¬D06),
+* `hR` — the rows the writer builds are renderable and collision-free: measures 000–999 (¬D36), no two objects on one
+  (channel, slot) (¬D35), two-character base-36 channels and ids, normalised positions,
+* `hitems`/`hasc` — on every lane the hits and holds, taken in time order, follow one another: nothing of the lane
+  starts inside a hold (¬D37), and sample ids differ from the `#LNOBJ` id and from `00` (`hv`),
+* `hH` — header domain (`HeaderOK`),
+the writer succeeds (`write … = ok lines`), the file has a by-the-book meaning `d` (`denote lay lines = some d`), and
+* `d.tempo` is the header tempo of the first tempo ROW (in force for no time at all) followed by exactly `cs`;
+* on every lane, in the layout's lane order, `d` has exactly one hit per in-memory hit and one hold per in-memory hold
+  (head, tail), with the sample the file's `#WAV` table gives the written id, at the positions `posFn cs` of their
+  times (`d.shits`, `d.sholds`; `d.hits`/`d.holds` are these at the times `timeAt 0 d.tempo`);
+* the by-the-book time of every such position is the in-memory time — exactly when that time lies on the snap grid of
+  its tempo segment, and within 1/192 beat (at the tempo in force) otherwise.
+
+Assembled from `writeCells_eq`/`cells_ok` (the writer's cells), `written_file_objects` (lexer + `#mmmcc:` lines +
+header lines, per channel, as a permutation), `written_header_read` (`_read_file_header` on the written header),
+`written_tempo_denotes` (tempo objects, any row order), `written_lane_denotes` (lanes: `positions_strict` from
+monotone snapping, `written_lane_sorted`, `pairLane_atoms`), `posFn_time` (K1 as run: `write_positions`). -/
+theorem bms_write_read (cs : List BcSnap) (hwf : wfChanges cs = true) (hs : strictSnaps cs = true)
+    (h0 : firstAtZero cs = true) (hgc : gridCompatible (grid defaultMaxDiv) cs = true) (hm : metronomeOk cs = true)
+    (lay : Layout) (hlay : LayoutOK lay)
+    (hts : lay.exbpmCh ≠ lay.timeSig ∧ ∀ lane ∈ lay.lanes, lane.1 ≠ lay.timeSig)
+    (dflt : Bytes) (c : WChart) (hp : c.bpms.Perm (tmOf 0 cs)) (hok : BmsOk cs lay c)
+    (hR : RowsOK (bmsNoteRows cs lay dflt c ++ bmsTempoRows cs lay c))
+    (hv : ∀ r ∈ bmsNoteRows cs lay dflt c, r.value ≠ ['0', '0'])
+    (hH : HeaderOK c) (hdec : ∀ b ∈ c.bpms, roundDec 3 b.bpm = b.bpm)
+    (hl : List Bytes) (hhdr : writeHeader c = .ok hl)
+    (items : Bytes × Nat → List TAtom)
+    (hitems : ∀ lane ∈ lay.lanes, (items lane).Perm (laneItems c dflt lane.2) ∧ (∀ a ∈ items lane, a.idOk c.lnEnd))
+    (hasc : ∀ lane ∈ lay.lanes, ((items lane).flatMap TAtom.times).Pairwise (fun a b => a ≤ b)) :
+    ∃ lines d b0, write defaultGrid lay dflt c = .ok lines ∧ denote lay lines = some d ∧
+      c.bpms.head? = some b0 ∧ d.tempo = ⟨b0.bpm, 4, ⟨0, 0, some 4⟩⟩ :: cs ∧
+      d.shits = lay.lanes.flatMap (fun lane => ((items lane).map (TAtom.toAtom (posFn cs) c.lnEnd)).flatMap
+        (Atom.hits (fun id => (dictGet? d.header.samples id).getD []) lane.2)) ∧
+      d.sholds = lay.lanes.flatMap (fun lane => ((items lane).map (TAtom.toAtom (posFn cs) c.lnEnd)).flatMap
+        (Atom.holds (fun id => (dictGet? d.header.samples id).getD []) lane.2)) ∧
+      d.hits = d.shits.map (fun h => ⟨h.col, h.sample, timeAt 0 d.tempo h.snap⟩) ∧
+      d.holds = d.sholds.map (fun h => ⟨h.col, h.sample, timeAt 0 d.tempo h.head,
+        timeAt 0 d.tempo h.tail - timeAt 0 d.tempo h.head⟩) ∧
+      ∀ lane ∈ lay.lanes, ∀ a ∈ items lane, ∀ t ∈ a.times,
+        rabs (timeAt 0 d.tempo (posOf (posFn cs t)) - t) ≤ 1 / 192 * activeBeatLen 0 cs t ∧
+        (OnGridAt (grid defaultMaxDiv) 0 cs t → timeAt 0 d.tempo (posOf (posFn cs t)) = t) := by
+  have hsorted := sortedSnaps_of_strict hs
+  obtain ⟨hcells, _⟩ := writeCells_eq cs hwf hs h0 hgc hm lay dflt c hp hok
+  -- the file
+  have hwrite : write defaultGrid lay dflt c =
+      .ok (hl ++ [[]] ++ linesOfCells (cellsOfRows (bmsNoteRows cs lay dflt c ++ bmsTempoRows cs lay c))) := by
+    simp only [write, writeNotes, hhdr, hcells, bind, Except.bind]
+  have hmisc : ∀ kv ∈ c.misc, ∃ a r, kv.1 = a :: r ∧ isDigit a = false ∧ isWs a = false := by
+    intro kv hkv
+    obtain ⟨a, r, e, hd, hw⟩ := (hH.misc kv hkv).1
+    exact ⟨a, r, e, hd, hw a (by simp)⟩
+  obtain ⟨H, notes, hparse, hHfold, hwfN, hperm⟩ :=
+    written_file_objects _ hR hl (writeHeader_headerLike c hl hhdr hmisc)
+  obtain ⟨hLN, b0, hdr, hhead, hread, hbpm0, hexb⟩ := written_header_read c hH hl hhdr H hHfold
+  -- well-formed data lines, none on the time-signature channel
+  have hnote := noteRows_channel cs lay dflt c hok
+  have hlines : linesOk lay.timeSig notes := by
+    intro d hd
+    obtain ⟨h1, h2, r, hr, hrc⟩ := hwfN d hd
+    refine ⟨h1, h2, ?_⟩
+    rw [hrc]
+    rcases List.mem_append.mp hr with hr | hr
+    · obtain ⟨col, hmem⟩ := hnote r hr
+      exact hts.2 _ hmem
+    · simp only [bmsTempoRows, List.mem_map] at hr
+      obtain ⟨p, _, rfl⟩ := hr
+      exact hts.1
+  have hco := channelObjs_eq lay.timeSig notes hlines
+  -- guards
+  have hb0mem : b0 ∈ c.bpms := by
+    cases hb : c.bpms with
+    | nil => rw [hb] at hhead; cases hhead
+    | cons x t => rw [hb] at hhead; simp only [List.head?_cons, Option.some.injEq] at hhead; rw [← hhead]; simp
+  have hb0pos : 0 < hdr.bpm0 := by rw [hbpm0]; exact bpms_pos cs hwf c.bpms hp b0 hb0mem
+  have hguards : guardsOk lay ⟨H, notes⟩ hdr = true := by
+    simp only [guardsOk, Bool.and_eq_true, Bool.not_eq_true', decide_eq_false_iff_not, not_le, List.any_eq_false,
+      decide_eq_true_eq, Bool.or_eq_true, Option.isNone_iff_eq_none, not_or]
+    refine ⟨⟨hb0pos, ?_⟩, ?_⟩
+    · intro d hd; exact (hlines d hd).2.2
+    · intro d hd
+      obtain ⟨⟨m, hm'⟩, ⟨ps, hps⟩, _⟩ := hlines d hd
+      simp [hm', hps]
+  -- tempo
+  have hex : ∀ p ∈ zipIdxFrom 1 c.bpms, dictGet? hdr.exbpms (base36 p.1) = some (roundDec 3 p.2.bpm) := by
+    rw [hexb]; exact (exbpm_table_readback c.bpms hH.nbpm hH.bpmpos).2
+  have htempo := written_tempo_denotes cs hwf hs h0 hgc hm lay hlay dflt c hp hok hdec hH.nbpm hdr.exbpms hex hdr.bpm0
+    notes _ _ (hco lay.bpmCh) (hperm lay.bpmCh) (hco lay.exbpmCh) (hperm lay.exbpmCh)
+  -- lanes
+  obtain ⟨so, hso⟩ : ∃ so : Bytes → Bytes, so = fun id => (dictGet? hdr.samples id).getD [] := ⟨_, rfl⟩
+  have hlane : ∀ lane ∈ lay.lanes, denoteLane (some c.lnEnd) so notes lane =
+      some (((items lane).map (TAtom.toAtom (posFn cs) c.lnEnd)).flatMap (Atom.hits so lane.2),
+            ((items lane).map (TAtom.toAtom (posFn cs) c.lnEnd)).flatMap (Atom.holds so lane.2)) := by
+    intro lane hlm
+    exact (written_lane_denotes cs hwf hs h0 hgc hm lay hlay dflt c hok hR hv lane hlm (items lane)
+      (hitems lane hlm).1 (hitems lane hlm).2 (hasc lane hlm) so notes _ (hco lane.1) (hperm lane.1)).1
+  have hall := allSome_congr (denoteLane (some c.lnEnd) so notes)
+    (fun lane => (((items lane).map (TAtom.toAtom (posFn cs) c.lnEnd)).flatMap (Atom.hits so lane.2),
+                  ((items lane).map (TAtom.toAtom (posFn cs) c.lnEnd)).flatMap (Atom.holds so lane.2))) lay.lanes hlane
+  have hbody : denoteBody lay ⟨H, notes⟩ hdr = some (⟨hdr.bpm0, 4, ⟨0, 0, some 4⟩⟩ :: cs,
+      (lay.lanes.map (fun lane => (((items lane).map (TAtom.toAtom (posFn cs) c.lnEnd)).flatMap (Atom.hits so lane.2),
+        ((items lane).map (TAtom.toAtom (posFn cs) c.lnEnd)).flatMap (Atom.holds so lane.2)))).flatMap (·.1),
+      (lay.lanes.map (fun lane => (((items lane).map (TAtom.toAtom (posFn cs) c.lnEnd)).flatMap (Atom.hits so lane.2),
+        ((items lane).map (TAtom.toAtom (posFn cs) c.lnEnd)).flatMap (Atom.holds so lane.2)))).flatMap (·.2)) := by
+    unfold denoteBody
+    simp only [hguards, if_true, htempo, hLN, ← hso, hall]
+  obtain ⟨S, hS⟩ : ∃ S, S = (lay.lanes.map (fun lane => (((items lane).map (TAtom.toAtom (posFn cs) c.lnEnd)).flatMap (Atom.hits so lane.2),
+        ((items lane).map (TAtom.toAtom (posFn cs) c.lnEnd)).flatMap (Atom.holds so lane.2)))).flatMap (·.1) := ⟨_, rfl⟩
+  obtain ⟨L, hL⟩ : ∃ L, L = (lay.lanes.map (fun lane => (((items lane).map (TAtom.toAtom (posFn cs) c.lnEnd)).flatMap (Atom.hits so lane.2),
+        ((items lane).map (TAtom.toAtom (posFn cs) c.lnEnd)).flatMap (Atom.holds so lane.2)))).flatMap (·.2) := ⟨_, rfl⟩
+  rw [← hS, ← hL] at hbody
+  have hden : denote lay (hl ++ [[]] ++ linesOfCells (cellsOfRows (bmsNoteRows cs lay dflt c ++ bmsTempoRows cs lay c))) =
+      some { header := hdr, tempo := ⟨hdr.bpm0, 4, ⟨0, 0, some 4⟩⟩ :: cs, shits := S, sholds := L,
+             hits := S.map (fun h => ⟨h.col, h.sample, timeAt 0 (⟨hdr.bpm0, 4, ⟨0, 0, some 4⟩⟩ :: cs) h.snap⟩),
+             holds := L.map (fun h => ⟨h.col, h.sample, timeAt 0 (⟨hdr.bpm0, 4, ⟨0, 0, some 4⟩⟩ :: cs) h.head,
+               timeAt 0 (⟨hdr.bpm0, 4, ⟨0, 0, some 4⟩⟩ :: cs) h.tail - timeAt 0 (⟨hdr.bpm0, 4, ⟨0, 0, some 4⟩⟩ :: cs) h.head⟩) } := by
+    unfold denote
+    simp only [hparse, hread, hbody]
+  refine ⟨_, _, b0, hwrite, hden, hhead, ?_⟩
+  · simp only []
+    refine ⟨by rw [hbpm0], ?_, ?_, trivial, trivial, ?_⟩
+    · rw [hS, List.flatMap_map, ← hso]
+    · rw [hL, List.flatMap_map, ← hso]
+    · intro lane hlm a ha t ht
+      have hts' : 0 ≤ t := by
+        have ha' := (hitems lane hlm).1.mem_iff.mp ha
+        simp only [laneItems, List.mem_append, List.mem_map, List.mem_filter] at ha'
+        rcases ha' with ⟨h, ⟨hh, _⟩, rfl⟩ | ⟨h, ⟨hh, _⟩, rfl⟩
+        · simp only [TAtom.times, List.mem_singleton] at ht
+          rw [ht]; exact hok.times.1 h hh
+        · simp only [TAtom.times, List.mem_cons, List.not_mem_nil, or_false] at ht
+          rcases ht with e | e
+          · rw [e]; exact (hok.times.2.1 h hh).1
+          · rw [e]; exact (hok.times.2.1 h hh).2
+      have hq := posFn_time cs hwf hsorted h0 hgc hm t hts'
+      obtain ⟨F, hF, hFt⟩ := write_positions cs hwf hsorted h0 hgc hm [t] (by simpa using hts')
+      have hpw := (snaps_pointwise cs hwf hsorted h0 hgc hm [t] (by simpa using hts')).1
+      rw [hF] at hpw
+      have eF : F t = posFn cs t := by simpa using hpw
+      have hqok := (hFt t (by simp)).1
+      rw [eF] at hqok
+      cases hcs : cs with
+      | nil => rw [hcs] at h0; simp [firstAtZero] at h0
+      | cons c1 rest =>
+        rw [hcs] at hqok h0
+        simp only [queryOk, Bool.and_eq_true, decide_eq_true_eq] at hqok
+        simp only [firstAtZero, Bool.and_eq_true, decide_eq_true_eq] at h0
+        have hle : c1.snap.le (posOf (posFn (c1 :: rest) t)) = true := by
+          have e : c1.snap.le (posOf (posFn (c1 :: rest) t)) = c1.snap.le (posFn (c1 :: rest) t) := rfl
+          rw [e]; exact hqok.1
+        have hdrop := timeAt_drop_zero ⟨hdr.bpm0, 4, ⟨0, 0, some 4⟩⟩ c1 rest (posOf (posFn (c1 :: rest) t))
+          ⟨rfl, rfl⟩ h0 hle
+        rw [hcs] at hq
+        rw [hdrop]
+        exact hq
 
 end Reamber.BMS
